@@ -8,6 +8,11 @@ same DOM, unencodable characters written as CSS escapes.
 Encodings: four 8-bit-compatible, mutually distinguishable ones.  The payload is the byte pair D0 B6, which every one of
 them decodes, each to a different text, so the decoded text names the encoding that was really used.  UTF-16 (not ASCII
 compatible) is covered by dedicated rows whose content is encoded in UTF-16 as a whole.
+
+What follows the encoding signature is an axis of its own (BODIES): two style rules with the payload, NOTHING (with neither BOM nor
+@charset the fetcher then delivers b'' / '' - zero-length DATA, which is not the same as no answer: the ladder still fixes the
+reported encoding), or a comment only.  Without payload the reported encoding, the @charset mirror, the rule list and the
+decodability of the serialisation are still observed.
 """
 import codecs
 import itertools
@@ -60,17 +65,24 @@ class Rec:
         return self.table.get(url)
 
 
-def make_content(kind, charset, form, tail=b''):
+# what follows the encoding signature (and the @import of a chain level): two style rules, the second holding the payload | nothing at all - with 'none' the content is
+# b'' / '', DATA of length zero, not a missing answer | a comment only (no rule)
+BODIES = ['rules', 'empty', 'comment']
+BODY_BYTES = {'rules': b'f{left:0}a{content:"' + PAYLOAD + b'"}', 'empty': b'', 'comment': b'/*c*/'}
+BODY_TEXT = {'rules': 'f{left:0}a{content:"' + TEXT_PAYLOAD + '"}', 'empty': '', 'comment': '/*c*/'}
+
+
+def make_content(kind, charset, form, tail=b'', body='rules'):
     """(content for the fetcher, encoding declared by the content or None).  kind: 'charset' | 'bom' | 'none';
-    form 'bytes' | 'text'.  In text form a leading U+FEFF is not a byte signature: the row counts as 'neither'."""
-    body = tail + b'f{left:0}a{content:"' + PAYLOAD + b'"}'
+    form 'bytes' | 'text'; body: see BODIES.  In text form a leading U+FEFF is not a byte signature: the row counts as 'neither'."""
+    tbody = tail.decode('ascii') + BODY_TEXT[body]
+    body = tail + BODY_BYTES[body]
     if form == 'bytes':
         if kind == 'charset':
             return b'@charset "' + charset.encode('ascii') + b'";' + body, charset
         if kind == 'bom':
             return BOM8 + body, 'utf-8'
         return body, None
-    tbody = tail.decode('ascii') + 'f{left:0}a{content:"' + TEXT_PAYLOAD + '"}'
     if kind == 'charset':
         return '@charset "' + charset + '";' + tbody, charset
     if kind == 'bom':
@@ -109,6 +121,14 @@ def first_rule_ok(sheet):
     return len(rules) == 2 and rules[0].selectorText == 'f'
 
 
+def body_ok(sheet, body):
+    """the rules of the decoded content are the ones written: 'rules' -> the style rules f, a; 'empty' -> nothing but the @charset / @import in front; 'comment' -> these and one comment"""
+    if body == 'rules':
+        return first_rule_ok(sheet)
+    rest = [r.cssText for r in sheet.cssRules if r.type not in (r.CHARSET_RULE, r.IMPORT_RULE)]
+    return rest == ([] if body == 'empty' else ['/*c*/'])
+
+
 def charset_consistent(sheet):
     """sheet.encoding equals its @charset rule, UTF-8 if there is none; at most one such rule, in front"""
     rules = list(sheet.cssRules)
@@ -118,7 +138,7 @@ def charset_consistent(sheet):
     return cs == [0] and rules[0].encoding == sheet.encoding
 
 
-def check_sheet(ctx, sheet, want_enc, want_payload, where, inputs, known=None, first='skip'):
+def check_sheet(ctx, sheet, want_enc, want_payload, where, inputs, known=None, first='skip', body='rules'):
     """the reported encoding, the decoded text, the @charset mirror and the decodability of the serialisation"""
     ok = True
     if sheet is None:
@@ -133,9 +153,9 @@ def check_sheet(ctx, sheet, want_enc, want_payload, where, inputs, known=None, f
         ctx.violation('bounded: the content is decoded with the encoding chosen by the precedence', f'{where}: decoded text {pl!r} expected {want_payload!r} (encoding {want_enc})', True, inputs,
                       known_id=known)
         ok = False
-    if first != 'garbage' and first != 'skip' and not first_rule_ok(sheet):
+    if first != 'garbage' and first != 'skip' and not body_ok(sheet, body):
         ctx.violation('bounded: the decoded text is the content (no byte-order mark left in front of the first statement)',
-                      f'{where}: style rules {[r.selectorText for r in sheet.cssRules if r.type == r.STYLE_RULE]!r} expected [\'f\', \'a\']', True, inputs,
+                      f'{where}: rules {[r.cssText for r in sheet.cssRules]!r}, expected those of the body {BODY_TEXT[body]!r}', True, inputs,
                       known_id='C08-bom-char-not-skipped' if first == 'known-bom' else known)
         ok = False
     if not charset_consistent(sheet):
@@ -190,9 +210,12 @@ def imports_matrix(ctx):
         assigns = list(assignments(slots, ckind == 'bom'))
         if fres != 'data':
             assigns = assigns[:1]
-        for a in assigns:
+        for a, body in itertools.product(assigns, BODIES if fres == 'data' else BODIES[:1]):
             o, t, p = a.get('o'), a.get('t'), a.get('p')
-            content, declared = make_content(ckind, a.get('c'), form)
+            content, declared = make_content(ckind, a.get('c'), form, body=body)
+            first = first_statement(ckind, form, o, t)
+            if body != 'rules' and first == 'garbage':
+                continue   # a byte-order mark read as 8-bit text with nothing behind it is not a style sheet: nothing to expect
             if fres == 'data':
                 result = (t, content)
             elif fres == 'none':
@@ -203,9 +226,10 @@ def imports_matrix(ctx):
                 result = (t, None)
             rec = Rec({CHILD_URL: result})
             top = ('@charset "%s";' % p if p else '') + '@import "sub/a.css";\nz{left:0}'
-            inputs = {'entry': 'parseString', 'override': o, 'transport': t, 'content': ckind, 'content_charset': a.get('c'), 'parent_charset': p, 'form': form, 'fetcher_result': fres}
+            inputs = {'entry': 'parseString', 'override': o, 'transport': t, 'content': ckind, 'content_charset': a.get('c'), 'parent_charset': p, 'form': form, 'fetcher_result': fres,
+                      'body': body, 'fetched': repr(result)}
             n += 1
-            kinds.add((has_o, has_t, ckind, has_p, form, fres))
+            kinds.add((has_o, has_t, ckind, has_p, form, fres, body))
             try:
                 sheet = cssutils.CSSParser(fetcher=rec).parseString(top, encoding=o, href=TOP_HREF)
             except Exception as e:  # noqa: BLE001
@@ -228,13 +252,14 @@ def imports_matrix(ctx):
                     ctx.violation('bounded: an import the fetcher cannot deliver has an empty sheet (encoding utf-8)', f'{where}: {child.cssText!r} {child.encoding!r}', True, inputs)
                 continue
             want = ladder(o, t, declared, o or p)
-            want_pl = TEXT_PAYLOAD if form == 'text' else DECODED[want]
-            check_sheet(ctx, child, want, want_pl, where, inputs, first=first_statement(ckind, form, o, t))
-            if len(samples) < 2 and has_t and has_p and ckind == 'charset' and not has_o:
+            want_pl = None if body != 'rules' else TEXT_PAYLOAD if form == 'text' else DECODED[want]
+            check_sheet(ctx, child, want, want_pl, where, inputs, first=first, body=body)
+            if len(samples) < 2 and body == 'rules' and has_t and has_p and ckind == 'charset' and not has_o:
                 samples.append({'row': inputs, 'expected_encoding': want, 'decoded': want_pl})
     ctx.bounded.append({'name': 'C08 one import: precedence matrix', 'evaluations': n, 'distinct_nontrivial': len(kinds), 'exhaustive': True,
                         'rule': '(override given/not) x (transport charset given/not) x (content with UTF-8 BOM / @charset / neither) x (parent @charset known/not) x (content bytes/text) x '
-                                '(fetcher result data / None / (None, None) / (charset, None)), every injective assignment of utf-8, iso-8859-1, koi8-r, cp1251 to the slots present; '
+                                '(fetcher result data / None / (None, None) / (charset, None)) x for data: (what follows the signature: two style rules with the payload / NOTHING - empty bytes or '
+                                'text are data, not a missing answer / a comment only; a BOM read as 8-bit text is only tried with rules behind it), every injective assignment of utf-8, iso-8859-1, koi8-r, cp1251 to the slots present; '
                                 'CSSParser(fetcher=recording).parseString(top, encoding=override, href=...); observed: importRule.styleSheet.encoding, decoded payload D0 B6, @charset mirror, cssText '
                                 'decodable, URL asked; distinct = matrix cell',
                         'samples': samples, 'bound': 'one import below a parseString sheet'})
@@ -254,14 +279,18 @@ def toplevel(ctx):
         assigns = list(assignments(slots, ckind == 'bom'))
         if fres != 'data':
             assigns = assigns[:1]
-        for a in assigns:
+        for a, body in itertools.product(assigns, BODIES if fres == 'data' else BODIES[:1]):
             o, t = a.get('o'), a.get('t')
-            content, declared = make_content(ckind, a.get('c'), form)
+            content, declared = make_content(ckind, a.get('c'), form, body=body)
+            first = first_statement(ckind, form, o, t)
+            if body != 'rules' and first == 'garbage':
+                continue
             result = {'data': (t, content), 'none': None, 'pair-none': (None, None), 'charset-but-no-content': (t, None)}[fres]
             rec = Rec({url: result})
-            inputs = {'entry': 'parseUrl', 'override': o, 'transport': t, 'content': ckind, 'content_charset': a.get('c'), 'form': form, 'fetcher_result': fres}
+            inputs = {'entry': 'parseUrl', 'override': o, 'transport': t, 'content': ckind, 'content_charset': a.get('c'), 'form': form, 'fetcher_result': fres, 'body': body,
+                      'fetched': repr(result)}
             n += 1
-            kinds.add(('parseUrl', has_o, has_t, ckind, form, fres))
+            kinds.add(('parseUrl', has_o, has_t, ckind, form, fres, body))
             try:
                 sheet = cssutils.CSSParser(fetcher=rec).parseUrl(url, encoding=o)
             except Exception as e:  # noqa: BLE001
@@ -274,38 +303,42 @@ def toplevel(ctx):
                     ctx.violation('bounded: parseUrl gives None when the fetcher delivers nothing', f'{inputs!r}: {sheet!r}', True, inputs)
                 continue
             want = ladder(o, t, declared, None)
-            check_sheet(ctx, sheet, want, TEXT_PAYLOAD if form == 'text' else DECODED[want], f'parseUrl row {inputs!r}', inputs, first=first_statement(ckind, form, o, t))
+            check_sheet(ctx, sheet, want, None if body != 'rules' else TEXT_PAYLOAD if form == 'text' else DECODED[want], f'parseUrl row {inputs!r}', inputs, first=first, body=body)
             if sheet is not None and sheet.href != url:
                 ctx.violation('bounded: parseUrl sets href', f'{inputs!r}: {sheet.href!r}', True, inputs)
     # parseString
     for has_o, ckind, form in itertools.product((False, True), ('charset', 'bom', 'none'), ('bytes', 'text')):
         slots = [s for s, on in (('o', has_o), ('c', ckind == 'charset')) if on]
-        for a in assignments(slots, ckind == 'bom'):
+        for a, body in itertools.product(list(assignments(slots, ckind == 'bom')), BODIES):
             o = a.get('o')
-            content, declared = make_content(ckind, a.get('c'), form)
-            inputs = {'entry': 'parseString', 'override': o, 'content': ckind, 'content_charset': a.get('c'), 'form': form}
+            content, declared = make_content(ckind, a.get('c'), form, body=body)
+            first = first_statement(ckind, form, o, None)
+            if body != 'rules' and first == 'garbage':
+                continue
+            inputs = {'entry': 'parseString', 'override': o, 'content': ckind, 'content_charset': a.get('c'), 'form': form, 'body': body, 'text': repr(content)}
             n += 1
-            kinds.add(('parseString', has_o, ckind, form))
+            kinds.add(('parseString', has_o, ckind, form, body))
             try:
                 sheet = cssutils.CSSParser(fetcher=Rec({})).parseString(content, encoding=o)
             except Exception as e:  # noqa: BLE001
                 ctx.violation('bounded: parseString raises nothing on decodable input', f'{inputs!r}: {type(e).__name__}: {e}', True, inputs)
                 continue
             want = ladder(o, None, declared, None)
-            check_sheet(ctx, sheet, want, TEXT_PAYLOAD if form == 'text' else DECODED[want], f'parseString row {inputs!r}', inputs, first=first_statement(ckind, form, o, None))
+            check_sheet(ctx, sheet, want, None if body != 'rules' else TEXT_PAYLOAD if form == 'text' else DECODED[want], f'parseString row {inputs!r}', inputs, first=first, body=body)
     # the ladder function itself, with the parent slot
     for has_o, has_t, ckind, has_p, form, fres in itertools.product((False, True), (False, True), ('charset', 'bom', 'none'), (False, True), ('bytes', 'text'), FETCH_RESULTS):
         slots = [s for s, on in (('o', has_o), ('t', has_t), ('c', ckind == 'charset'), ('p', has_p)) if on]
         assigns = list(assignments(slots, ckind == 'bom'))
         if fres != 'data':
             assigns = assigns[:1]
-        for a in assigns:
+        for a, body in itertools.product(assigns, BODIES if fres == 'data' else BODIES[:1]):
             o, t, p = a.get('o'), a.get('t'), a.get('p')
-            content, declared = make_content(ckind, a.get('c'), form)
+            content, declared = make_content(ckind, a.get('c'), form, body=body)
             result = {'data': (t, content), 'none': None, 'pair-none': (None, None), 'charset-but-no-content': (t, None)}[fres]
-            inputs = {'entry': '_readUrl', 'override': o, 'transport': t, 'content': ckind, 'content_charset': a.get('c'), 'parent': p, 'form': form, 'fetcher_result': fres}
+            inputs = {'entry': '_readUrl', 'override': o, 'transport': t, 'content': ckind, 'content_charset': a.get('c'), 'parent': p, 'form': form, 'fetcher_result': fres, 'body': body,
+                      'fetched': repr(result)}
             n += 1
-            kinds.add(('_readUrl', has_o, has_t, ckind, has_p, form, fres))
+            kinds.add(('_readUrl', has_o, has_t, ckind, has_p, form, fres, body))
             try:
                 enc, _enctype, text = _readUrl(url, fetcher=Rec({url: result}), overrideEncoding=o, parentEncoding=p)
             except Exception as e:  # noqa: BLE001
@@ -321,11 +354,11 @@ def toplevel(ctx):
                 ctx.violation('bounded: reported encoding follows override > transport > BOM/@charset > parent > utf-8', f'_readUrl {inputs!r}: {enc!r} expected {want!r}', True, inputs)
             elif form == 'text' and text != want_text and text != want_text.lstrip('\ufeff'):  # (a leading U+FEFF may be dropped: it is not part of the sheet)
                 ctx.violation('bounded: text content is passed through undecoded', f'_readUrl {inputs!r}: {text!r}', True, inputs)
-            elif form == 'bytes' and (text is None or DECODED[want] not in text):
+            elif form == 'bytes' and (text is None or (DECODED[want] if body == 'rules' else BODY_TEXT[body]) not in text):
                 ctx.violation('bounded: the content is decoded with the encoding chosen by the precedence', f'_readUrl {inputs!r}: {text!r} expected to hold {DECODED[want]!r}', True, inputs)
     ctx.bounded.append({'name': 'C08 top level: parseUrl / parseString / _readUrl', 'evaluations': n, 'distinct_nontrivial': len(kinds), 'exhaustive': True,
                         'rule': 'parseUrl: (override) x (transport) x (BOM/@charset/neither) x (bytes/text) x (4 fetcher answers); parseString: (override) x (BOM/@charset/neither) x (bytes/text); '
-                                '_readUrl with the parent slot: the full 2x2x3x2x2x4 matrix; every injective assignment of the four encodings to the slots present; distinct = matrix cell',
+                                '_readUrl with the parent slot: the full 2x2x3x2x2x4 matrix; data rows with each body behind the signature (two style rules / nothing: empty bytes or text / a comment only); every injective assignment of the four encodings to the slots present; distinct = matrix cell',
                         'samples': [{'entry': 'parseUrl', 'override': None, 'transport': 'koi8-r', 'content_charset': 'cp1251', 'expected': 'koi8-r', 'decoded': DECODED['koi8-r']}],
                         'bound': 'single sheet'})
 
@@ -380,16 +413,17 @@ def chain_check(entry, model, levels, sheets, calls, inputs):
             form = 'text' if entry == 'parseString' else 'bytes'
         else:
             form = levels[k - 1]['form']
+        body = levels[k - 1].get('body', 'rules') if k > 0 else 'rules'
         want_pl = None
-        if s is not None and (k > 0 or entry == 'parseUrl'):
+        if s is not None and (k > 0 or entry == 'parseUrl') and body == 'rules':
             want_pl = TEXT_PAYLOAD if form == 'text' else DECODED[expected[k]]
-        check_sheet(sink, s, expected[k], want_pl, f'chain level {k} of {inputs!r} (observed encodings {observed!r})', inputs, first=firsts[k])
+        check_sheet(sink, s, expected[k], want_pl, f'chain level {k} of {inputs!r} (observed encodings {observed!r})', inputs, first=firsts[k], body=body)
     return sink.out
 
 
 def run_chain(job):
     """worker: one top configuration, all 6^3 level configurations -> (evaluations, kinds, [(what, detail, inputs, known_id)])"""
-    entry, has_o, top_t, top_ckind, rot, forms = job
+    entry, has_o, top_t, top_ckind, rot, forms, bodies = job
     cssutils = _quiet()
     out = []
     n = 0
@@ -414,16 +448,19 @@ def run_chain(job):
             c = picks[1] if ckind == 'charset' else None
             form = forms[(k - 1) % len(forms)]
             tail = (b'@import "l%d.css";' % (k + 1)) if k < 3 else b''
-            content, declared = make_content(ckind, c, form, tail)
+            body = bodies[k - 1]
+            if first_statement(ckind, form, o, t) == 'garbage':
+                body = 'rules'   # a byte-order mark read as 8-bit text is only tried with rules behind it
+            content, declared = make_content(ckind, c, form, tail, body=body)
             table[BASE + 'l%d.css' % k] = (t, content)
             prev = ladder(o, t, declared, prev)
-            levels.append({'transport': t, 'content': ckind, 'content_charset': c, 'form': form, 'declared': declared})
+            levels.append({'transport': t, 'content': ckind, 'content_charset': c, 'form': form, 'declared': declared, 'body': body})
         top = (t0, decl0, top_ckind)
         model = chain_model(entry, o, top, levels)
         rec = Rec(table)
         inputs = {'entry': entry, 'override': o, 'top_transport': t0, 'top_content': top_ckind, 'top_charset': c0, 'levels': levels, 'expected': model[0], 'reachable_depth': model[2]}
         n += 1
-        kinds.add((entry, has_o, top_t, top_ckind, cfg))
+        kinds.add((entry, has_o, top_t, top_ckind, cfg, bodies))
         try:
             if entry == 'parseString':
                 text = ('@charset "%s";' % c0 if c0 else '') + '@import "l1.css";'
@@ -458,16 +495,22 @@ def chains(ctx):
     jobs = []
     rots = (0, 1) if ctx.tier == 'quick' else (0, 1, 2, 3)
     form_sets = [('bytes', 'bytes', 'bytes'), ('bytes', 'text', 'bytes')] if ctx.tier == 'quick' else [('bytes',) * 3, ('bytes', 'text', 'bytes'), ('text', 'bytes', 'text')]
+    # what stands behind the signature and the @import of the levels l1, l2, l3 (see BODIES): style rules everywhere | l2 a comment only, the leaf NOTHING (for 'neither' content
+    # the leaf is zero-length data) | nothing anywhere (every sheet is just its @import, the leaf is empty)
+    body_sets = [('rules',) * 3, ('rules', 'comment', 'empty')] + ([('empty',) * 3] if ctx.tier != 'quick' else [])
     for rot in rots:
         for forms in form_sets:
-            for has_o in (False, True):
-                for top_ckind in ('charset', 'none'):
-                    jobs.append(('parseString', has_o, False, top_ckind, rot, forms))
-            if forms == form_sets[0]:
+            for bodies in body_sets:
+                if bodies != body_sets[0] and (forms != form_sets[0] or (ctx.tier == 'quick' and rot != rots[0])):
+                    continue
                 for has_o in (False, True):
-                    for top_t in (False, True):
-                        for top_ckind in ('charset', 'bom', 'none'):
-                            jobs.append(('parseUrl', has_o, top_t, top_ckind, rot, forms))
+                    for top_ckind in ('charset', 'none'):
+                        jobs.append(('parseString', has_o, False, top_ckind, rot, forms, bodies))
+                if forms == form_sets[0]:
+                    for has_o in (False, True):
+                        for top_t in (False, True):
+                            for top_ckind in ('charset', 'bom', 'none'):
+                                jobs.append(('parseUrl', has_o, top_t, top_ckind, rot, forms, bodies))
     if ctx.jobs > 1:
         with multiprocessing.get_context('fork').Pool(ctx.jobs) as pool:
             results = list(pool.imap(run_chain, jobs))
@@ -486,7 +529,8 @@ def chains(ctx):
     ctx.bounded.append({'name': 'C08 import chains', 'evaluations': n, 'distinct_nontrivial': len(kinds), 'exhaustive': True,
                         'rule': 'chains top -> l1 -> l2 -> l3; every level independently (transport given/not) x (BOM/@charset/neither) = 6^3 configurations, under parseString tops '
                                 '(override given/not x top @charset known/not) and parseUrl tops (override x transport x BOM/@charset/neither); encodings chosen per level distinct from the '
-                                f'override and from the referring sheet\'s encoding, {len(rots)} rotations, level contents as bytes and (alternately) text; expected encoding of level k = '
+                                f'override and from the referring sheet\'s encoding, {len(rots)} rotations, level contents as bytes and (alternately) text, behind the signature and the @import of a level: style rules '
+                                f'at every level, and (all-bytes chains{", first rotation" if ctx.tier == "quick" else ""}) {" / ".join(",".join(b) for b in body_sets[1:])} for l1,l2,l3 - an empty leaf is zero-length DATA; expected encoding of level k = '
                                 'override, else transport_k, else content_k, else expected encoding of level k-1, else utf-8; observed at every level: encoding, decoded payload, @charset mirror, '
                                 'fetch order; distinct = (entry, top configuration, level configurations)',
                         'samples': [{'entry': 'parseString', 'override': None, 'levels': ['transport koi8-r', 'neither', '@charset cp1251'], 'expected': ['utf-8', 'koi8-r', 'koi8-r', 'cp1251']}],
